@@ -27,7 +27,7 @@ RULE = (
     "Rules (<=30 steps): list_decay_modes, print_decay_modes with drawn options, build_decay_chains with drawn stable sets, "
     "expand_decay_modes, every dict_*/list_*/get_* query, global_photos_flag, repr, list_decay_mother_names, decay-mode "
     "details, each optionally followed by in-place mutation (recursively) of the returned value, and parse() again with the "
-    "same switch. After every step snapshot(parser) must equal the fresh snapshot; after every (re)parse the tables must equal "
+    "same switch. After every step snapshot(parser) must equal the fresh snapshot, and the answer of every query with arguments must equal that of a newly parsed instance; after every (re)parse the tables must equal "
     "the reference (copy semantics) and the Tree/Token objects of a derived table must be disjoint from its source's. "
     "Non-trivial: a history with >=1 mutation followed by >=2 further steps on a file with >=1 copied or conjugated table."
 )
@@ -134,6 +134,12 @@ def mutate(x, depth=0):
         x.clear()
 
 
+def _plain(x):
+    from ..snapshot import _freeze
+
+    return _freeze(x)
+
+
 def object_ids(tree):
     from lark import Token, Tree
 
@@ -203,11 +209,13 @@ class State:
                 elif kind == "details" and mo:
                     r = [p._decay_mode_details(dm, s.get("kw", True)) for dm in p._find_decay_modes(mo)]
                 elif kind == "print" and mo:
-                    with contextlib.redirect_stdout(io.StringIO()):
+                    pbuf = io.StringIO()
+                    with contextlib.redirect_stdout(pbuf):
                         try:
                             p.print_decay_modes(mo, **s["opts"])
                         except Exception:  # noqa: BLE001 -- refusals/option errors are C16's subject, not C08's
                             pass
+                    self._printed = pbuf.getvalue()
                     r = None
                 elif kind == "chains" and mo:
                     S = [self.names[i % len(self.names)] for i in s.get("S", [])]
@@ -228,6 +236,29 @@ class State:
                     p.parse()
                     r = None
                 else:
+                    r = None
+            # queries with arguments: the answer itself must be the one a freshly parsed instance gives
+            if kind in ("chains", "expand", "print", "list_decay_modes") and mo:
+                fp = make_parser(self.text, ID, extra_models=tuple(self.f.get("extra_models", ())))
+                with impl(ID, kind + "(fresh)"):
+                    if kind == "chains":
+                        want = fp.build_decay_chains(mo, stable_particles=S)
+                    elif kind == "expand":
+                        want = fp.expand_decay_modes(mo)
+                    elif kind == "list_decay_modes":
+                        want = fp.list_decay_modes(mo)
+                    else:
+                        buf = io.StringIO()
+                        with contextlib.redirect_stdout(buf):
+                            try:
+                                fp.print_decay_modes(mo, **s["opts"])
+                            except Exception:  # noqa: BLE001
+                                pass
+                        want, r = buf.getvalue(), self._printed
+                if _plain(r) != _plain(want):
+                    raise Mismatch(f"C08:answer:{kind}", f"after {self.history[:-1][-3:]}: {kind}({mo!r}, {s.get('S', s.get('opts', ''))}) differs from a fresh instance",
+                                   str(_plain(want))[:600], str(_plain(r))[:600])
+                if kind == "print":
                     r = None
             if s.get("mutate") and r is not None:
                 mutate(r)
